@@ -19,8 +19,10 @@ def run(ctx):
             from vlib import MachineryError
             raise MachineryError("LRU_Ind reaches %d states, LRU %d: the restated copy has drifted"
                                  % (r1["distinct"], r0["distinct"]))
-        ctx.apalache_ind(fam, "LRU_Ind", cinit="CInit", timeout=2400,
-                         label="LRU_Ind: IndInv inductive; capacity, charges, values symbolic, 3 keys")
+        # Next = StepPut \/ StepSetNX \/ StepSetCap \/ StepRest: one run per part (5 min; as one run 13 min)
+        for part in ("StepPut", "StepSetNX", "StepSetCap", "StepRest"):
+            ctx.apalache_ind(fam, "LRU_Ind", next_=part, cinit="CInit", timeout=1800,
+                             label="LRU_Ind: IndInv inductive under %s; capacity, charges, values symbolic, 3 keys" % part)
     # 2. plans out of the spec
     pdir, plans = ctx.tlc_plans(fam, "LRU_Gen", "LRU_Gen.cfg", num=ctx.q(250, 3000), depth=14)
     # 3. execute against the real code
@@ -28,7 +30,7 @@ def run(ctx):
     out = ctx.harness(binary, ["-plans", pdir, "-out", ctx.path("seq.ndjson"), "-conc", ctx.path("conc.ndjson"),
                          "-seed", ctx.seed, "-hist", ctx.q(200, 4000), "-nconc", ctx.q(60, 1500),
                          "-nwide", ctx.q(40, 800), "-maxops", ctx.q(80, 200),
-                         "-nrace", ctx.q(100000, 1500000), "-nracekeep", ctx.q(5000, 60000), "-nbulk", ctx.q(150, 3000)],
+                         "-nrace", ctx.q(100000, 1500000), "-nracekeep", ctx.q(3600, 60000), "-nbulk", ctx.q(150, 3000)],
                 traces=[ctx.path("seq.ndjson"), ctx.path("conc.ndjson")])
     # 4. validate what the real code did
     seq = ctx.load_traces(ctx.path("seq.ndjson"))
